@@ -72,3 +72,30 @@ def branchy_case(rng, calls, suite="toy-branchy"):
         lines.append(f"toy.call {calls(rng)}")
         lines.append("toy.snap")
     return Case(suite, lines, None, {"n": n, "words": words})
+
+
+TOY_MNEMONICS = ["STO", "LDA", "BRZ", "ADD", "SUB", "OR", "AND", "XOR", "NOT", "INC", "DEC", "ZRO", "NOP"]
+
+
+def as_text_case(c):
+    """The same image LOADED FROM TEXT through `ToySimulation.load_program` (the path the front end takes) where the image
+    can be written as a program: every word an instruction with opcode <= 12, data outside the program. The data words are
+    poked in afterwards (the TOY assembler lays data out from the top of memory, an image may have them anywhere)."""
+    import toyasmgen
+    out = []
+    for l in c.lines:
+        if l.startswith("toy.load "):
+            t = l.split()[1:]
+            n = int(t[0])
+            words = [int(x) for x in t[1:1 + n]]
+            data = [tuple(int(y) for y in x.split(":")) for x in t[1 + n:]]
+            if n == 0 or any((w >> 12) > 12 for w in words) or any(a < n for a, _ in data):
+                return c
+            text = "\n".join(TOY_MNEMONICS[w >> 12] + (f" 0x{w & 0xFFF:03X}" if (w >> 12) <= 7 else "") for w in words)
+            out.append("toy.asm " + toyasmgen.hx(text))
+            out += [f"toy.poke {a} {v}" for a, v in data]
+        else:
+            out.append(l)
+    c.lines = out
+    c.meta = dict(c.meta, from_text=True)
+    return c
